@@ -165,6 +165,8 @@ def java_annotation_legs(run, spec, stage, text, inv, found):
 # ------------------------------------------------------------------ model legs
 def model_requests(L, e):
     m = MODELS[L]
+    if "doc_op" not in m:       # a model without a tagged document: text only (leg K1)
+        return [{"op": m["op"], "program": e, "package": "src.pkg"}]
     return [{"op": m["doc_op"], "program": e, "package": "src.pkg"},
             {"op": m["inv_op"], "program": e},
             {"op": m["sem_op"], "program": e}]
@@ -175,8 +177,12 @@ def model_judge(run, L, ans, text, inv, lit):
     for a in ans:
         if "error" in a:
             raise common.HarnessError("driver error (%s): %s" % (L, a["error"]))
-    doc, linv, sem = ans[0]["r"], ans[1]["r"], ans[2]["r"]
     import c11_plugin
+    if "doc_op" not in MODELS[L]:
+        if ans[0]["r"] != text:
+            out.append(("K1 model-text=text", c11_plugin.first_diff(text, ans[0]["r"])))
+        return out
+    doc, linv, sem = ans[0]["r"], ans[1]["r"], ans[2]["r"]
     flat = "".join(p[2] for p in doc)
     if flat != text:
         out.append(("K1 flatten(doc)=text", c11_plugin.first_diff(text, flat)))
